@@ -213,6 +213,8 @@ func checkC01(c *Ctx) {
 	c.include("lifecycle", "C12", rulesIn("C12.authorised", "C12.once", "C12.recipient", "C12.expiry"))
 	c.include("lifecycle", "C13", rulesIn("C13."))
 	c.include("identity", "C14", rulesIn("C14.coverage", "C14.injective"))
+	c.include("amounts", "C11", rulesIn("C11.convert-truncates", "C11.debit-identity", "C11.commission-form"))
+	c.include("amounts", "C19", rulesIn("C19.clamp", "C19.remainder", "C19.prorata"))
 
 	// ---- C01.lock-equals-emit / C01.connector-amount -----------------------------------------
 	c.checkSolLock()
